@@ -34,7 +34,9 @@ LEVEL = ("sibling / guard rules: (1) every get_type_string implementation evalua
          "one function that ORs their `required`, or returns under equality of the two; (9) decode direction: the Python code each kind's construct macro generates "
          "for a non-required property (per valuation of the template conditions, macro calls followed, placeholders for destination / "
          "source / unknown) is parsed and run abstractly on the path where the source is UNSET: the destination ends as the source / "
-         "UNSET, never as a fresh value.")
+         "UNSET, never as a fresh value; (11) the `required` lists of the document reach the builders whole (no in-place rewrite, no "
+         "filter over a collection made of them); (12) two declarations' `required` are combined only by the merge module and the "
+         "function that walks allOf.")
 
 TEMPLATE_DIR = "property_templates/"
 GUARD_RE = re.compile(r"isinstance\([^)]*,\s*Unset\)|\bis (not )?UNSET\b")   # generated code that asks whether a value is the sentinel
@@ -49,7 +51,8 @@ def run(rep: Report, ctx: Any) -> str:
                       "`= UNSET` iff not required and no default, and nothing iff required without default")
     rep.rule("R10.2", "every transform/transform_multipart/transform_multipart_body/construct_template macro: the arm emitted "
                       "for required properties never mentions Unset/UNSET; the arm for optional properties assigns UNSET only "
-                      "under an isinstance(..., Unset) test; an Unset guard is skipped only when `property.required`")
+                      "under an isinstance(..., Unset) test; for a property that is not required a test for Unset is emitted under every valuation of the "
+                      "conditions the Unset-handling pieces sit under (skipped only when `property.required`)")
     rep.rule("R10.3", "to_dict writes a key unconditionally only if the property is required, otherwise under `is not UNSET`; "
                       "from_dict pops optional keys with the UNSET default and required keys without default")
     rep.rule("R10.6", "the model class declares every mandatory attribute (required, no default) before every attribute that carries a "
